@@ -1,6 +1,6 @@
 #!/venv/bin/python
 """
-tools/regress_seeded.py [--tests] [--jobs N] [ids...]
+tools/regress_seeded.py [--tests] [--jobs N] [ids...]   |   tools/regress_seeded.py --prop Cxx [--jobs N] /tmp/out-x/1 /tmp/out-x/2 ...
 Every kept seeded breakage (/verif/seeded/<id>/patch.diff) against the CURRENT machinery, without touching /repo:
 for each one a scratch git worktree of /repo's HEAD is made under /tmp/wtt/<id>, the patch applied there, and
   * demo.py must exit non-zero there (and 0 on /repo),
@@ -16,10 +16,12 @@ from concurrent.futures import ThreadPoolExecutor
 args = sys.argv[1:]
 tests = "--tests" in args
 jobs = int(args[args.index("--jobs") + 1]) if "--jobs" in args else 4
-ids = [a for i, a in enumerate(args) if not a.startswith("--") and (i == 0 or args[i - 1] != "--jobs")]
+prop_arg = args[args.index("--prop") + 1] if "--prop" in args else None
+ids = [a for i, a in enumerate(args) if not a.startswith("--") and (i == 0 or args[i - 1] not in ("--jobs", "--prop"))]
 ROOT = "/verif/seeded"
 ids = ids or sorted(os.listdir(ROOT))
-BASE = "/tmp/wtt"
+TAG = "wtc" if prop_arg else "wtt"
+BASE = "/tmp/" + TAG
 os.makedirs(BASE, exist_ok=True)
 KNOWN_FAIL = {"tests/test_ray.py::RayTests::test_on_edge"}
 
@@ -29,9 +31,13 @@ def sh(cmd, **kw):
 
 
 def one(sid):
-    d = os.path.join(ROOT, sid)
-    meta = json.load(open(os.path.join(d, "meta.json")))
-    prop = meta["property"]
+    if "/" in sid:
+        # a candidate not yet kept: a directory with patch.diff + demo.py, property given with --prop
+        d, prop = sid, prop_arg
+        sid = sid.strip("/").replace("/", "_")
+    else:
+        d = os.path.join(ROOT, sid)
+        prop = json.load(open(os.path.join(d, "meta.json")))["property"]
     wt = os.path.join(BASE, sid)
     out = {"id": sid, "property": prop}
     sh(["git", "-C", "/repo", "worktree", "remove", "--force", wt])
@@ -50,7 +56,7 @@ def one(sid):
             e1 = sh(["/venv/bin/python", demo], env=dict(os.environ, PYTHONPATH=wt, PYTHONDONTWRITEBYTECODE="1"), cwd="/tmp", timeout=900).returncode
             out["demo"] = [e0, e1]
         t = time.time()
-        env = dict(os.environ, VERIF_REPO=wt, VERIF_EVIDENCE_DIR=f"/tmp/wtt-evidence/{sid}", VERIF_REPLAY_DIR=f"/tmp/wtt-replays/{sid}", PYTHONDONTWRITEBYTECODE="1")
+        env = dict(os.environ, VERIF_REPO=wt, VERIF_EVIDENCE_DIR=f"/tmp/{TAG}-evidence/{sid}", VERIF_REPLAY_DIR=f"/tmp/{TAG}-replays/{sid}", PYTHONDONTWRITEBYTECODE="1")
         os.makedirs(env["VERIF_EVIDENCE_DIR"], exist_ok=True)
         c = sh(["/verif/check", prop, "--tier", "quick"], env=env, timeout=7200)
         out["check_exit"] = c.returncode
@@ -83,8 +89,9 @@ with ThreadPoolExecutor(jobs) as ex:
         results.append(out)
         print(("CAUGHT " if ok else "PROBLEM"), json.dumps(out), flush=True)
 sh(["git", "-C", "/repo", "worktree", "prune"])
-shutil.rmtree("/tmp/wtt-evidence", ignore_errors=True)
-shutil.rmtree("/tmp/wtt-replays", ignore_errors=True)
-json.dump(results, open("/tmp/regress_seeded.json", "w"), indent=1)
+shutil.rmtree(f"/tmp/{TAG}-evidence", ignore_errors=True)
+if not prop_arg:
+    shutil.rmtree(f"/tmp/{TAG}-replays", ignore_errors=True)
+json.dump(results, open("/tmp/regress_seeded.json" if not prop_arg else "/tmp/regress_candidates.json", "w"), indent=1)
 print(f"{len(ids) - bad}/{len(ids)} caught" + (" with the repository's tests still passing" if tests else ""))
 sys.exit(1 if bad else 0)
